@@ -797,8 +797,24 @@ theorem effAxes_nodup (r : Nat) (nax : List Nat) (h : nax.Nodup) : (effAxes r na
   · exact List.nodup_range
   · exact h
 
+/-- with no listed axes the model reduces all axes, among them axis 0: the guard cannot fire -/
+theorem innerAxesOnly_effAxes (r : Nat) (nax : List Nat) (h : innerAxesOnly r nax = false) :
+    innerAxesOnly r (effAxes r nax) = false := by
+  cases nax with
+  | nil =>
+    cases r with
+    | zero => rfl
+    | succ n =>
+      have hm : 0 ∈ List.range (n + 1) := by simp
+      have : (List.range (n + 1)).all (fun a => decide (2 ≤ a)) = false := by
+        rw [List.all_eq_false]
+        exact ⟨0, hm, by simp⟩
+      simp [innerAxesOnly, effAxes, this]
+  | cons a l => simpa [effAxes] using h
+
 theorem gReduce_ok (better : α → α → Bool) (t : Tensor α) (nax : List Nat) (hnd : nax.Nodup)
-    (hlt : ∀ a ∈ nax, a < t.shape.length) :
+    (hlt : ∀ a ∈ nax, a < t.shape.length)
+    (hin : innerAxesOnly t.shape.length (effAxes t.shape.length nax) = false) :
     gReduce better t (nax.map Int.ofNat) =
       .ok (ofFn (keepF (fun j => (effAxes t.shape.length nax).contains j) 0 t.shape) fun idx =>
         (extremum better ((reducePositions t.shape (effAxes t.shape.length nax)).map fun pos =>
@@ -824,7 +840,9 @@ theorem gReduce_ok (better : α → α → Bool) (t : Tensor α) (nax : List Nat
   have h5 : (if nax.isEmpty = true then List.range t.shape.length else nax) = effAxes t.shape.length nax := rfl
   rw [h5, eraseDups_of_nodup _ (effAxes_nodup _ _ hnd)]
   simp only [ne_eq, not_true_eq_false, if_false]
-  rfl
+  refine Eq.trans (if_neg ?_) rfl
+  intro hc
+  exact Bool.false_ne_true (hin.symm.trans hc)
 
 theorem normAxes_some {r : Nat} {axes : List Int} {nax : List Nat}
     (h : axes.mapM (Spec.normAxis r) = some nax) :
@@ -862,6 +880,7 @@ theorem normAxes_some {r : Nat} {axes : List Int} {nax : List Nat}
 theorem reduce_no_axes_keepdims (better : α → α → Bool) (t : Tensor α) (h : prod t.shape ≠ 1) :
     reduceOp better t [] true = .error .shape := by
   have h0 := gReduce_ok better t [] List.nodup_nil (by simp)
+    (innerAxesOnly_effAxes _ _ (by simp [innerAxesOnly]))
   unfold reduceOp
   simp only [List.map_nil] at h0 ⊢
   rw [h0]
@@ -881,11 +900,12 @@ theorem reduce_partial' (le : α → α → Bool) (hle : TotalLe le)
     (t : Tensor α) (axes : List Int) (keep : Bool)
     (nax : List Nat) (hax : axes.mapM (Spec.normAxis t.shape.length) = some nax) (hnd : nax.Nodup)
     (hguard : ¬ (axes = [] ∧ keep = true ∧ prod t.shape ≠ 1))
+    (hinner : innerAxesOnly t.shape.length nax = false)
     (s : Tensor α) (hs : Spec.reduce (fun a b => if le a b then b else a) t axes keep = some s) :
     ∃ m, reduceOp (fun a b => !le a b) t axes keep = .ok m ∧ Equiv m s := by
   obtain ⟨hmap, hlt⟩ := normAxes_some hax
   have hlt' := effAxes_lt _ _ hlt
-  have h0 := gReduce_ok (fun a b => !le a b) t nax hnd hlt
+  have h0 := gReduce_ok (fun a b => !le a b) t nax hnd hlt (innerAxesOnly_effAxes _ _ hinner)
   unfold Spec.reduce at hs
   simp only [hax, eraseDups_of_nodup nax hnd, Option.some.injEq] at hs
   subst hs
@@ -947,6 +967,18 @@ theorem reduce_partial' (le : α → α → Bool) (hle : TotalLe le)
       intro s hs
       rw [← maskZero_eq_iff _ 0 t.shape idx s hidx (InRange_length hs)]
       exact beq_iff_eq
+
+/-- the guard of `gReduce` fires: axis 2 of a rank-4 tensor reduced first -/
+theorem reduce_rank4_inner_unmodelled (better : α → α → Bool) (t : Tensor α) (keep : Bool)
+    (h : t.shape.length = 4) : reduceOp better t [2] keep = .error .unmodelled := by
+  have hg : gReduce better t [2] = .error .unmodelled := by
+    unfold gReduce
+    rw [h]
+    rfl
+  have hax : ([2] : List Int).map (fun a => if a < 0 then ((t.shape.length : Nat) : Int) + a else a) = [2] := by
+    simp
+  unfold reduceOp
+  simp only [hax, hg]
 
 /-! ### the generic (preorder-only) ReduceMax statement fails: witness -/
 
